@@ -23,6 +23,8 @@ pub mod miller;
 pub use miller::*;
 pub mod qsroots;
 pub use qsroots::*;
+pub mod expwin;
+pub use expwin::*;
 pub mod chains;
 pub use chains::*;
 pub mod group;
